@@ -134,7 +134,7 @@ public:
 inline void structuredPair(Rng& g, Alpha& al, RTA& a, RTA& b)
 {
 	al.rank = {0, 0, 2, 1};
-	int kind = static_cast<int>(g.below(4));
+	int kind = static_cast<int>(g.below(5));
 	a = RTA(); b = RTA();
 	auto R = [](int sym, std::vector<St> ch, St par) { RRule r; r.sym = sym; r.ch = ch; r.par = par; return r; };
 	if (kind == 0)
@@ -169,6 +169,22 @@ inline void structuredPair(Rng& g, Alpha& al, RTA& a, RTA& b)
 		for (int i = 0; i < nb; ++i) b.rules.insert(R(static_cast<int>(g.below(2)), {}, g.below(nb)));
 		for (int i = 0; i < g.range(4, 14); ++i) b.rules.insert(R(2, {g.below(nb), g.below(nb)}, g.below(nb)));
 		b.fin.insert(g.below(nb)); if (g.chance(1, 2)) b.fin.insert(g.below(nb));
+	}
+	else if (kind == 3)
+	{	// the same state at several child positions + unary cycles, so that macro-states of one
+		// smaller state are discovered in different rounds; the bigger automaton has binary rules
+		// for most but not all combinations of its states
+		al.rank = {0, 0, 2, 1, 1};
+		int na = g.range(1, 3), nb = g.range(2, 5);
+		a.rules.insert(R(static_cast<int>(g.below(2)), {}, g.below(na)));
+		for (int i = 0; i < g.range(1, 3); ++i) { St q = g.below(na); a.rules.insert(R(2, {q, q}, g.below(na))); }
+		for (int i = 0; i < g.range(1, 4); ++i) a.rules.insert(R(3 + static_cast<int>(g.below(2)), {g.below(na)}, g.below(na)));
+		if (g.chance(1, 2)) a.rules.insert(R(2, {g.below(na), g.below(na)}, g.below(na)));
+		a.fin.insert(g.below(na)); if (g.chance(1, 3)) a.fin.insert(g.below(na));
+		for (int i = 0; i < g.range(1, 3); ++i) b.rules.insert(R(static_cast<int>(g.below(2)), {}, g.below(nb)));
+		for (St x = 0; x < static_cast<St>(nb); ++x) for (St y = 0; y < static_cast<St>(nb); ++y) if (!g.chance(1, 4)) b.rules.insert(R(2, {x, y}, g.below(nb)));
+		for (int i = 0; i < g.range(2, 8); ++i) b.rules.insert(R(3 + static_cast<int>(g.below(2)), {g.below(nb)}, g.below(nb)));
+		for (int i = 0; i < g.range(1, 3); ++i) b.fin.insert(g.below(nb));
 	}
 	else
 	{	// small A, large B (many macro-states created and destroyed in one check)
@@ -206,9 +222,10 @@ inline RTA shiftStates(const RTA& a, St off)
 
 // A general-purpose pair generator mixing the families; sizes bounded by S states / R rules.
 // kind is reported for statistics.
-inline void genPair(Rng& g, int S, int R, Alpha& al, RTA& a, RTA& b, std::string& kind)
+inline void genPair(Rng& g, int S, int R, Alpha& al, RTA& a, RTA& b, std::string& kind, bool moreStructured = false)
 {
-	int k = static_cast<int>(g.below(10));
+	int k = static_cast<int>(g.below(moreStructured ? 15 : 10));
+	if (k >= 10) k = 7;   // extra weight on the structured families
 	if (k < 3)
 	{	// G2 plain random
 		kind = "G2-random"; al = randAlpha(g);
@@ -266,6 +283,15 @@ inline RFA randLiveFA(Rng& g, int S, int T, int nsym, St off = 0)
 	if (g.chance(1, 3)) a.start.insert(off + g.below(n));
 	if (g.chance(1, 3)) a.fin.insert(off + g.below(n));
 	return a;
+}
+
+// the downward inclusion algorithms enumerate choice functions over the bigger automaton's tuples
+// of one symbol: running time exponential in this number (heavy tail, DESIGN.md §7.1)
+inline size_t maxTuples(const RTA& b)
+{
+	std::map<int, size_t> cnt; size_t mx = 0;
+	for (auto& r : b.rules) if (r.ch.size() >= 2) mx = std::max(mx, ++cnt[r.sym]);
+	return mx;
 }
 
 } // namespace gen
